@@ -106,9 +106,8 @@ FSM_OPERATION_MAP_SOURCE = {
     # 在 | 符号之后
     FSMStatus.AFTER_7C: {
         "|": FSMOperate.add_and_handle_cache_to_wait(marks=AMTMark.NONE),  # 符号：||
-        char_set.END_TOKEN: FSMOperate.handle_cache_to_wait(marks=AMTMark.NONE),  # 符号：|
         END: FSMOperate.raise_error(),
-        DEFAULT: FSMOperate.raise_error()
+        DEFAULT: FSMOperate.handle_cache_to_wait(marks=AMTMark.NONE)  # 符号：|
     },
 
     # 在 0 之后
